@@ -478,6 +478,22 @@ func (queue *Queue) Purge() (length uint64) {
 
 // Delete cancel consumers and delete its messages from storage
 func (queue *Queue) Delete(ifUnused bool, ifEmpty bool) (uint64, error) {
+	length, consumers, err := queue.deactivate(ifUnused, ifEmpty)
+	if err != nil {
+		return 0, err
+	}
+
+	// consumers are cancelled with no queue lock held: Cancel -> Stop -> RemoveConsumer
+	// takes cmrLock again, and a consumer in the middle of a pop holds its status lock
+	// while waiting for actLock
+	for _, cmr := range consumers {
+		cmr.Cancel()
+	}
+
+	return length, nil
+}
+
+func (queue *Queue) deactivate(ifUnused bool, ifEmpty bool) (uint64, []interfaces.Consumer, error) {
 	queue.actLock.Lock()
 	queue.cmrLock.Lock()
 	queue.SafeQueue.Lock()
@@ -486,16 +502,17 @@ func (queue *Queue) Delete(ifUnused bool, ifEmpty bool) (uint64, error) {
 	defer queue.SafeQueue.Unlock()
 
 	if ifUnused && len(queue.consumers) != 0 {
-		return 0, errors.New("queue has consumers")
+		return 0, nil, errors.New("queue has consumers")
 	}
 
 	if ifEmpty && queue.SafeQueue.DirtyLength() != 0 {
-		return 0, errors.New("queue has messages")
+		return 0, nil, errors.New("queue has messages")
 	}
 
 	queue.active = false
 
-	queue.cancelConsumers()
+	consumers := make([]interfaces.Consumer, len(queue.consumers))
+	copy(consumers, queue.consumers)
 	length := uint64(atomic.LoadInt64(&queue.queueLength))
 
 	if queue.durable {
@@ -508,7 +525,7 @@ func (queue *Queue) Delete(ifUnused bool, ifEmpty bool) (uint64, error) {
 	queue.metrics.ServerTotal.Counter.Dec(int64(length))
 	queue.metrics.ServerReady.Counter.Dec(int64(length))
 
-	return length, nil
+	return length, consumers, nil
 }
 
 // AddConsumer add consumer to consumer messages with exclusive check
@@ -570,12 +587,6 @@ func (queue *Queue) callConsumers() {
 	case queue.call <- struct{}{}:
 		verifhook.Sent("queue.call")
 	default:
-	}
-}
-
-func (queue *Queue) cancelConsumers() {
-	for _, cmr := range queue.consumers {
-		cmr.Cancel()
 	}
 }
 
